@@ -66,6 +66,7 @@ fn main() {
         "c07" => c07::run(&cases, &out, &tier, seed),
         "c08" => c08::run(&cases, &out, &tier, seed),
         "c15" => c15::run(&cases, &out, &tier, seed),
+        "c19w" => c19::worker(&cases, &out, &tier, seed, arg(&args, "--start", "0").parse().unwrap_or(0)),
         "dbg19" => c19::dbg(),
         "c19" => c19::run(&cases, &out, &tier, seed),
         "c18" => c18::run(&cases, &out, &tier, seed),
